@@ -484,6 +484,9 @@ def random_connection(rng, idx=0, v6=None, suite=None, features=None):
     f.setdefault("reorder", rng.random() < 0.2)
     # one datagram far above the usual MTU (loopback / GRO captures; max_udp_payload_size allows up to 65527)
     f.setdefault("jumbo", rng.random() < 0.1)
+    # a download: 60-90 consecutive server datagrams with ~1.1 kB of stream data each and no client datagram in between
+    # (more than 65507 bytes in one direction without a change of direction)
+    f.setdefault("download", rng.random() < 0.05)
     # both endpoints happen to choose the same connection-ID bytes (each picks its own, RFC 9000 5.1; 1-byte CIDs collide
     # once in 256 connections); not combined with Retry / NEW_CONNECTION_ID / prefix-related CIDs to keep the case pure
     f.setdefault("same_cid", rng.random() < 0.06 and not f["retry"] and not f["new_cid"] and not f["prefix_cid"])
@@ -545,6 +548,12 @@ def random_connection(rng, idx=0, v6=None, suite=None, features=None):
             off = offs.get((d, sid), 0)
             offs[(d, sid)] = off + len(data)
             chunks.append((sid, off, data, rng.random() < 0.1))
+        if f["download"] and i == n // 2:
+            for _ in range(rng.randrange(60, 90)):
+                data = rng.randbytes(rng.randrange(1000, 1200))
+                off = offs.get((1, 0), 0)
+                offs[(1, 0)] = off + len(data)
+                c.app(1, [(0, off, data, False)], pnlen=2)
         pnlen = rng.choice([1, 1, 2, 3, 4]) if not f.get("long") else 1
         jump = rng.choice([0, 0, 0, 1, 3, 30]) if pnlen == 1 else rng.choice([0, 5, 200, 3000 if pnlen > 2 else 100])
         if f["pn_big"] and i < 8:
